@@ -199,7 +199,7 @@ def b_structure(cl, mod, H, n, nlast=NMAX):
             conc3 = resolve_arrays([conc2], idx)[0]
             cl.add('C13/F/n%d/value/%s/f%d%d%d' % (n, tagp, fv[0], fv[1], fv[2]), ev, prem2, conc3,
                    'F_H = sum_atoms occupancy x (f0-part + f\' + i f\'\') x exp(i 2 pi H.r) with the atomic factors Atomic_Factors reports; %d atoms, '
-                   'atoms sharing an element: %s, flags (%d,%d,%d)' % (n, tagp, fv[0], fv[1], fv[2]), functions=[fn], timeout=30, check_premise=(fv == (2, 2, 2)))
+                   'atoms sharing an element: %s, flags (%d,%d,%d)' % (n, tagp, fv[0], fv[1], fv[2]), functions=[fn], timeout=90, check_premise=(fv == (2, 2, 2)))
     failc = And(r.rv[0] == 0, r.rv[1] == 0, r.errset, r.sets_on_slot == 1, r.overwrites == 0)
     for part in partitions(list(range(n))):
         reps = [min(c) for c in part]
@@ -248,6 +248,17 @@ def b_structure(cl, mod, H, n, nlast=NMAX):
     cl.side_obligations('C13/F/n%d/side' % n, ev, functions=[fn], assume=cr.n == n)
 
 
+def b_complex(cl, mod, H):
+    """the two exported complex helpers (deprecated API, still exported)"""
+    ev = Eval(mod)
+    a, b, c, d = Real('x_re'), Real('x_im'), Real('y_re'), Real('y_im')
+    r = ev.call('c_abs', [a, b], errslot=None)
+    cl.add('C13/complex/abs', ev, BoolVal(True), And(r.rv >= 0, r.rv * r.rv == a * a + b * b), 'c_abs(x) is the non-negative root of re^2 + im^2', functions=['c_abs'])
+    m = ev.call('c_mul', [a, b, c, d], errslot=None)
+    cl.add('C13/complex/mul', ev, BoolVal(True), And(m.rv[0] == a * c - b * d, m.rv[1] == a * d + b * c), 'c_mul(x, y) = (x.re y.re - x.im y.im, x.re y.im + x.im y.re)', functions=['c_mul'])
+    cl.side_obligations('C13/complex/side', ev, functions=['c_abs', 'c_mul'])
+
+
 def check(run):
     H = macros(run)
     run.assumptions += ['real arithmetic for double (DESIGN.md §2.3); sin/cos/asin/sqrt uninterpreted with sin^2+cos^2 = 1 for the cell angles, sqrt(x)^2 = x, sin(asin u) = u',
@@ -261,4 +272,5 @@ def check(run):
     nmax = NMAX if run.tier == 'thorough' else 2
     for n in range(0, nmax + 1):
         groups.append(('C13/F/n%d' % n, (lambda cl, n=n: b_structure(cl, mod, H, n, nmax)), ()))
+    groups.append(('C13/complex', lambda cl: b_complex(cl, mod, H), ()))
     bcheck.run_groups(run, groups)
